@@ -375,7 +375,7 @@ def header_structure_faults(acc, dname, dic, schema, mt, inst, cid, rnd):
                           f"{dname} {mt}: header field {node['name']}({tag})={val!r} in a message without tag 8 -> {v}", {"dict": dname, "msgtype": mt, "tag": tag, "value": val}, cid)
             return
     # (b)
-    if not all(t in dic.header_tags for t in ("627", "628", "629", "630")):
+    if "627" not in dic.header_tags or not all(t in dic.by_tag for t in ("628", "629", "630")):
         return
 
     def with_hops(items):
